@@ -9,6 +9,8 @@ import (
 	"go/types"
 	"strconv"
 	"strings"
+
+	"golang.org/x/tools/go/ssa"
 )
 
 // ---------------------------------------------------------------------------
@@ -612,6 +614,36 @@ func (env *Env) call(n *ast.CallExpr) (Val, error) {
 			out.L = append(out.L, sIte(c.one(), a.L[i], b.L[i]))
 		}
 		return out, nil
+	case "iterseen":
+		// iterseen(k): has the innermost enclosing map iteration already produced key k?
+		k, err := arg(0)
+		if err != nil {
+			return Val{}, err
+		}
+		if fx.curBlock == nil {
+			return Val{}, fmt.Errorf("iterseen outside a loop")
+		}
+		var best *ssa.Range
+		var bestH *ssa.BasicBlock
+		for h, li := range fx.loops {
+			if li.blocks[fx.curBlock] || h == fx.curBlock {
+				for _, in := range h.Instrs {
+					if nx, ok := in.(*ssa.Next); ok {
+						if rng, ok := nx.Iter.(*ssa.Range); ok {
+							if _, _, ok := fx.iterSeenName(rng); ok && (bestH == nil || bestH.Index < h.Index) {
+								best, bestH = rng, h
+							}
+						}
+					}
+				}
+			}
+		}
+		if best == nil {
+			return Val{}, fmt.Errorf("iterseen: no enclosing map iteration")
+		}
+		n, srt, _ := fx.iterSeenName(best)
+		m := under(best.X.Type()).(*types.Map)
+		return Val{T: bt, L: []string{sSel(fx.heapVar(env.heap, n, srt), fx.mapKeyTerm(m.Key(), k))}}, nil
 	case "arr":
 		a, err := arg(0)
 		if err != nil {
@@ -981,6 +1013,28 @@ func (env *Env) typeExpr(x ast.Expr) (types.Type, error) {
 					return tn.Type(), nil
 				}
 			}
+		}
+	case *ast.MapType:
+		k, err := env.typeExpr(n.Key)
+		if err != nil {
+			return nil, err
+		}
+		v, err := env.typeExpr(n.Value)
+		if err != nil {
+			return nil, err
+		}
+		return types.NewMap(k, v), nil
+	case *ast.ArrayType:
+		if n.Len == nil {
+			el, err := env.typeExpr(n.Elt)
+			if err != nil {
+				return nil, err
+			}
+			return types.NewSlice(el), nil
+		}
+	case *ast.InterfaceType:
+		if n.Methods == nil || len(n.Methods.List) == 0 {
+			return types.NewInterfaceType(nil, nil), nil
 		}
 	case *ast.UnaryExpr:
 		if n.Op == token.MUL {
